@@ -24,7 +24,7 @@ EXPLANATION = ("The source dataset (1-2 scales with different chunk sizes) consi
                "(type-converted) source voxel; the source files are compared byte-for-byte before/after.")
 BOUNDS = {"quick": "sizes up to 4 per axis, 1-2 channels, 1-2 scales; raw<->compressed_segmentation, uint8->uint32/uint64, uint32->uint64, "
                    "deep/flat/gzip/sharded destinations and sources, remote (model HTTP server) flat and sharded sources, with and without --copy-info, through main(argv) as well",
-          "thorough": "more combinations, 3 scales"}
+          "thorough": "3 scales; every source x destination layout pair; 6 sharding parameter triples x 4 index/data encoding pairs on the destination and on the source side (local and remote); every widening pair of unsigned types, raw and into compressed_segmentation"}
 OUTSIDE = ["lossy (JPEG) targets", "narrowing conversions (C11)"]
 
 
